@@ -4,6 +4,7 @@ import struct
 from vlib import Dv, B, ndigits
 import vlib
 from . import textcommon as tc
+from . import common
 from .textcommon import hx, unhx
 
 ID = "C13"
@@ -122,6 +123,22 @@ def gen(rng, tier):
         op = rng.choice(["Text 0 102 %d" % p, "Text 0 102 %d" % p, "Format 0 %d %d %d 102" % (rng.randint(0, 15), rng.choice([-1, 8]), p),
                          "Append 0 102 %d %s" % (p, hx("x="))])
         yield dict(family="f-leading-digit", vars=[x], ops=[op])
+    # (i'') 'f' where the whole value lies below the rounding position (result 0 or one unit): the decision
+    #       half / above half / below half depends on digits beyond the first mantissa word
+    for _ in range(150 * n):
+        k = rng.choice([19, 20, 25, 37, 38, 39, 57, 60])
+        lead = rng.choice([5, 5, 5, 4, 6, 49, 50, 51])
+        tail = rng.choice([0, 1, 1, 7, 10 ** rng.randint(0, k - 19), common.rand_coeff(rng, max(1, k - 19))])
+        c = lead * 10 ** k + (tail % 10 ** (k - 18) if k > 18 else 0)
+        if lead in (49,):
+            c = lead * 10 ** k + int("9" * k)
+        nd = ndigits(c)
+        e = rng.choice([-30, -7, -3, -2, -1, 0, 0])
+        x = vlib.fin(c, e - nd, neg=rng.randint(0, 1), mode=rng.choice([0, 0, 0, 1, 1, 2, 3, 4, 5]), pad=rng.choice([0, 0, 1]))
+        p = -e
+        op = rng.choice(["Text 0 102 %d" % p, "Format 0 %d %d %d 102" % (rng.randint(0, 15), rng.choice([-1, 8]), p),
+                         "Append 0 102 %d %s" % (p, hx("x="))])
+        yield dict(family="f-below-position", vars=[x], ops=[op])
     # (ii) Format through a fmt.State with every flag set
     for _ in range(900 * n):
         x = value(rng)
